@@ -25,7 +25,7 @@ IMPORT_STYLES = ["import", "import", "from", "star", "func", "tc"]
 
 def new_export(rnd: random.Random, kind: str, state=None, mod=None) -> dict:
     t = lambda: rnd.choice(TYPES)
-    e = {"kind": kind, "p": t(), "r": t(), "t": t(), "t2": t(), "ok": rnd.random() < 0.85}
+    e = {"kind": kind, "p": t(), "r": t(), "t": t(), "t2": t(), "ok": rnd.random() < 0.93}
     if kind == "cls":
         e["base"] = None
         e["inferred"] = rnd.random() < 0.4
@@ -34,6 +34,43 @@ def new_export(rnd: random.Random, kind: str, state=None, mod=None) -> dict:
 
 def new_use(rnd: random.Random, i: int, dep: str, ename: str) -> dict:
     return {"id": i, "dep": dep, "name": ename, "t": rnd.choice(TYPES), "a": rnd.choice(TYPES), "form": rnd.randrange(3), "ignore": False}
+
+
+def make_consistent(st, u) -> None:
+    """Choose the use's types so that it type-checks against the export AS IT IS NOW: projects start mostly
+    clean, and it takes propagation (not the 're-check targets that had errors' shortcut) to notice later edits."""
+    e = st["mods"].get(u["dep"], {}).get("exports", {}).get(u["name"])
+    if not e:
+        return
+    k = e["kind"]
+    if k == "reexport":
+        src = st["mods"].get(e.get("src"), {}).get("exports", {}).get(e.get("srcname"))
+        if not src or src["kind"] == "reexport":
+            return
+        e, k = src, src["kind"]
+    if k == "func":
+        u["a"], u["t"], u["form"] = e["p"], e["r"], (u["form"] if not e.get("rcls") else 2) if e.get("rcls") else u["form"] % 2
+    elif k == "ovl":
+        u["a"], u["t"], u["form"] = "int", e["r"], u["form"] % 2
+    elif k == "cls":
+        if u["form"] == 1:
+            u["t"] = e["t"]
+        else:
+            u["a"], u["t"] = e["p"], e["r"]
+    elif k in ("const", "enum"):
+        u["t"] = e["t"]
+    elif k in ("alias", "td"):
+        u["a"] = e["t"]
+    elif k == "box":
+        u["t"] = u["a"]
+    elif k == "proto":
+        u["a"], u["t"] = e["p"], e["r"]
+    elif k == "nt":
+        u["a"], u["t"] = e["t"], e["t"]
+    elif k == "dc":
+        u["a"], u["t"] = e["t"], e["t2"]
+    elif k == "deco":
+        u["a"], u["t"] = e["p"], e["r"]
 
 
 def initial(rnd: random.Random, nmods: int) -> dict:
@@ -88,7 +125,16 @@ def add_use(st, rnd, mod) -> None:
     if not cands:
         return
     d, n = rnd.choice(cands)
-    m["uses"].append(new_use(rnd, fresh(st), d, n))
+    u = new_use(rnd, fresh(st), d, n)
+    if rnd.random() < 0.8:
+        make_consistent(st, u)
+    if st["mods"][d]["exports"][n]["kind"] == "cls":
+        local = sorted(k for k, x in m["exports"].items() if x["kind"] == "cls")
+        if local and rnd.random() < 0.5:
+            # an instance of a LOCAL class where the imported class is expected: an error unless/until
+            # the local class is made a subclass of it (edit `make_subclass`)
+            u["other"] = rnd.choice(local)
+    m["uses"].append(u)
 
 
 # ---------------------------------------------------------------- rendering
@@ -177,6 +223,8 @@ def render_use(st, mod, u) -> list[str]:
         else:
             # attribute / method of the inferred result type (an indirect dependency when that type lives elsewhere)
             out += ["j%d = %s(%s)%s" % (i, r, lit(u["a"]), tail), "q%d: %s = j%d.attr" % (i, u["t"], i), "w%d: %s = j%d.m(%s)" % (i, u["t"], i, lit(u["a"]))]
+    elif kind == "cls" and u.get("other") and u["other"] in m["exports"]:
+        out += ["hh%d: %s = %s()%s" % (i, r, u["other"], tail), "def hf%d(a: %s) -> None: ..." % (i, r), "hf%d(%s())%s" % (i, u["other"], tail)]
     elif kind == "cls":
         if u["form"] == 0:
             out += ["class S%d(%s):%s" % (i, r, tail), "    def m(self, y: %s) -> %s:" % (u["a"], u["t"]), "        return %s" % lit(u["t"])]
@@ -193,7 +241,8 @@ def render_use(st, mod, u) -> list[str]:
     elif kind == "proto":
         out += ["class I%d:" % i, "    def m(self, y: %s) -> %s:" % (u["a"], u["t"]), "        return %s" % lit(u["t"]), "def up%d(p: %s) -> None: ..." % (i, r), "up%d(I%d())%s" % (i, i, tail)]
     elif kind == "nt":
-        out += ["n%d: %s = %s(%s, %s).x%s" % (i, u["t"], r, lit(u["a"]), lit(u["t"]), tail)]
+        t2 = e["t2"] if (e and e.get("kind") == "nt") else u["t"]
+        out += ["n%d: %s = %s(%s, %s).x%s" % (i, u["t"], r, lit(u["a"]), lit(t2), tail)]
     elif kind == "td":
         out += ["t%d: %s = {'x': %s}%s" % (i, r, lit(u["a"]), tail)]
     elif kind == "dc":
@@ -280,13 +329,19 @@ def render(st) -> dict:
 # ---------------------------------------------------------------- edits
 
 EDIT_KINDS = ["change_export", "change_export", "change_export", "add_export", "remove_export", "add_use", "remove_use", "change_use", "add_import", "remove_import", "restyle_import",
-              "toggle_broken", "toggle_semblock", "toggle_ignore", "delete_module", "add_module", "rename_module", "to_package", "add_stub", "remove_stub", "set_base", "fix_errors"]
+              "toggle_broken", "toggle_semblock", "toggle_ignore", "delete_module", "add_module", "rename_module", "to_package", "add_stub", "remove_stub", "set_base", "make_subclass", "fix_errors"]
 
 
 def draw_edit(st, rnd: random.Random) -> dict:
     mods = sorted(st["mods"])
     kind = rnd.choice(EDIT_KINDS)
     mod = rnd.choice(mods) if mods else None
+    if kind == "toggle_semblock" and mods:
+        # prefer a module whose exports are used elsewhere (so that the interface change that comes with the
+        # blocker has dependants to propagate to)
+        cands = sorted({u["dep"] for o, om in st["mods"].items() for u in om["uses"] if u["dep"] in st["mods"] and u["dep"] != o and u["name"] in st["mods"][u["dep"]]["exports"]})
+        if cands:
+            mod = rnd.choice(cands)
     op = {"op": kind, "mod": mod, "seed": rnd.randrange(2**30)}
     if mod is None:
         return {"op": "add_module", "mod": "m%d" % fresh(st), "seed": op["seed"]}
@@ -366,9 +421,12 @@ def apply_edit(st, op) -> bool:
     elif kind == "toggle_semblock":
         m["semblock"] = not m.get("semblock")
         if m["semblock"] and m["exports"]:
-            # the same edit also changes an interface, so dependants must be re-checked once the blocker is gone
-            e = m["exports"][rnd.choice(sorted(m["exports"]))]
-            e[rnd.choice(["p", "r", "t"])] = rnd.choice(TYPES)
+            # the same edit also changes an interface, so dependants must be re-checked once the blocker is gone;
+            # prefer an export that other modules actually use
+            used = sorted({u["name"] for o, om in st["mods"].items() if o != mod for u in om["uses"] if u["dep"] == mod and u["name"] in m["exports"]})
+            e = m["exports"][rnd.choice(used or sorted(m["exports"]))]
+            for fld in ("p", "r", "t"):
+                e[fld] = rnd.choice([t for t in TYPES if t != e[fld]])
     elif kind == "delete_module" and len(st["mods"]) > 2:
         if any(o.startswith(mod + ".") for o in st["mods"]):
             return False
@@ -394,6 +452,12 @@ def apply_edit(st, op) -> bool:
     elif kind == "set_base" and op.get("name") in m["exports"] and m["exports"][op["name"]]["kind"] == "cls":
         cands = [(d, n) for d in m["imports"] if d in st["mods"] for n, x in st["mods"][d]["exports"].items() if x["kind"] == "cls"]
         m["exports"][op["name"]]["base"] = list(rnd.choice(cands)) if cands and rnd.random() < 0.8 else None
+    elif kind == "make_subclass":
+        cands = [u for u in m["uses"] if u.get("other") in m["exports"] and u["dep"] in m["imports"]]
+        if cands:
+            u = rnd.choice(cands)
+            e = m["exports"][u["other"]]
+            e["base"] = None if e.get("base") == [u["dep"], u["name"]] else [u["dep"], u["name"]]
     elif kind == "fix_errors":
         for e in m["exports"].values():
             e["ok"] = True
@@ -404,7 +468,7 @@ def apply_edit(st, op) -> bool:
 
 PROFILES = {
     # daemon-friendly fragments, enabled construct by construct (C03 saturation protocol)
-    "basic": {"edits": ["change_export", "change_export", "add_export", "remove_export", "add_use", "remove_use", "change_use", "toggle_ignore", "toggle_semblock", "fix_errors", "set_base"],
+    "basic": {"edits": ["change_export", "change_export", "add_export", "remove_export", "add_use", "remove_use", "change_use", "toggle_ignore", "toggle_semblock", "fix_errors", "set_base", "make_subclass", "make_subclass"],
               "styles": ["import", "import", "from"], "kinds": ["func", "func", "cls", "cls", "const", "alias", "box", "nt", "dc", "enum", "ovl"]},
     "structure": {"edits": ["change_export", "add_export", "remove_export", "add_use", "remove_use", "change_use", "add_import", "remove_import", "restyle_import", "toggle_broken", "toggle_ignore",
                             "delete_module", "add_module", "set_base", "fix_errors"],
